@@ -24,6 +24,7 @@ ASSUMES = ["the state handed to evaluate_observables is normalised and right-can
 HEADER = "From Coq Require Import List. Import ListNotations.\nFrom Yaqs Require Import Model.ObsAttrib."
 ONE = ["x", "y", "z", "h", "p0", "p1"]
 TWO = ["xx", "yy", "zz"]
+TWO_ENT = ["cx", "cz", "swap"]  # Hermitian two-site gates that are not products of one-site operators
 DIAG = ["max_bond", "total_bond", "runtime_cost"]
 
 
@@ -64,7 +65,10 @@ def gen_obs(rng, L):
             out.append((Observable(str(rng.choice(ONE)), int(rng.integers(0, L))), "Local1"))
         elif u < 0.6:
             s = int(rng.integers(0, L - 1))
-            out.append((Observable(str(rng.choice(TWO)), [s, s + 1]), "Local2"))
+            if rng.random() < 0.5:
+                out.append((Observable(str(rng.choice(TWO)), [s, s + 1]), "Local2"))
+            else:
+                out.append((Observable(str(rng.choice(TWO_ENT)), [s, s + 1]), "Local2E"))
         elif u < 0.85:
             s = int(rng.integers(0, L - 1))
             out.append((Observable(str(rng.choice(["entropy", "schmidt_spectrum"])), [s, s + 1]), "Bond"))
@@ -78,7 +82,7 @@ def first_site(o):
 
 
 def g_obs(olist):
-    return g_list([f"{{| oid := {k}%nat; kind := {kind}; site := {first_site(o) if kind != 'Diag' else 0}%nat |}}" for k, (o, kind) in enumerate(olist)])
+    return g_list([f"{{| oid := {k}%nat; kind := {'Local2' if kind == 'Local2E' else kind}; site := {first_site(o) if kind != 'Diag' else 0}%nat |}}" for k, (o, kind) in enumerate(olist)])
 
 
 def trace_reads(mps, olist):
@@ -147,7 +151,7 @@ def correspond(ctx):
     for (L, olist), (log, order), (morder, mreads) in zip(cases, impl, vals):
         desc = {"L": L, "observables": [(o.gate.name, getattr(o, "sites", None), kind) for o, kind in olist]}
         sites = [first_site(o) for o, k in olist if k != "Diag"]
-        nontriv = sites != sorted(sites) or any(k in ("Bond", "Local2") and first_site(o) > 0 for o, k in olist)
+        nontriv = sites != sorted(sites) or any(k in ("Bond", "Local2", "Local2E") and first_site(o) > 0 for o, k in olist)
         ctx.case(nontrivial_key=(L, str(desc["observables"])) if nontriv else None, validated=True, sample={**desc, "reads(oid,centres)": log} if nontriv else None)
         ctx.count("lists")
         if isinstance(log, str):
@@ -172,6 +176,11 @@ def dense_value(v, L, o, kind):
         s = first_site(o)
         pa = dense.PAULI[name[0]], dense.PAULI[name[1]]
         return dense.expect(v, dense.op_on(L, {s: pa[0], s + 1: pa[1]}))
+    if kind == "Local2E":
+        s = first_site(o)
+        g = np.asarray(getattr(GateLibrary, name)().matrix, dtype=complex)  # site s = most significant factor
+        w = v.reshape(2**s, 4, 2 ** (L - s - 2))
+        return complex(np.einsum("apb,pq,aqb->", w.conj(), g, w))
     s = first_site(o)
     mat = v.reshape(2 ** (s + 1), 2 ** (L - s - 1))
     sv = np.linalg.svd(mat, compute_uv=False)
